@@ -141,3 +141,367 @@ pub fn e_state(s: &v1::State) -> Tree {
 pub fn e_ids<'a>(ids: impl IntoIterator<Item = &'a u64>) -> Tree {
     list(ids, |x| u(*x))
 }
+
+// ================================================================================
+// Instance-level messages.  Positional formats (see coq/theories/InstTree.v):
+//   dv         = [id, kind, opt [lower, upper], opt substituted, opt name, [subscripts], [[k,v]..], opt description]
+//   constraint = [id, equality, opt function, opt name, [subscripts], [[k,v]..], opt description]
+//   removed    = [opt constraint, reason, [[k,v]..]]
+//   instance   = [sense, opt objective, [dv..], [constraint..], [removed..], [[id, function]..],
+//                 opt [[id, value]..] (parameters), opt hints, opt description]
+//   hints      = [[ [constraint_id, [var ids]] .. ], [ [binary_constraint_id, [big_m ids], [var ids]] .. ]]
+//   description= [opt name, opt description, [authors], opt created_by]
+//   parameter  = [id, opt name, [subscripts], [[k,v]..], opt description]
+//   parametric = [sense, opt objective, [dv..], [parameter..], [constraint..], [removed..], [[id,function]..], opt hints, opt description]
+
+fn d_strmap(t: &Tree) -> R<HashMap<String, String>> {
+    let mut m = HashMap::new();
+    for e in t.as_list()? {
+        let p = e.as_list()?;
+        if p.len() != 2 {
+            return Err("string map entry: arity".into());
+        }
+        m.insert(p[0].as_str()?.to_string(), p[1].as_str()?.to_string());
+    }
+    Ok(m)
+}
+fn e_strmap(m: &HashMap<String, String>) -> Tree {
+    let mut v: Vec<_> = m.iter().collect();
+    v.sort();
+    list(v, |(k, x)| L(vec![a(k), a(x)]))
+}
+fn d_optstr(t: &Tree) -> R<Option<String>> {
+    Ok(match t.as_opt()? {
+        None => None,
+        Some(s) => Some(s.as_str()?.to_string()),
+    })
+}
+fn e_optstr(s: &Option<String>) -> Tree {
+    opt(s.as_ref(), |x| a(x))
+}
+fn d_i64s(t: &Tree) -> R<Vec<i64>> {
+    t.as_list()?.iter().map(|x| x.as_i64()).collect()
+}
+fn d_u64s(t: &Tree) -> R<Vec<u64>> {
+    t.as_list()?.iter().map(|x| x.as_u64()).collect()
+}
+fn d_optfn(t: &Tree) -> R<Option<v1::Function>> {
+    Ok(match t.as_opt()? {
+        None => None,
+        Some(x) => Some(d_function(x)?),
+    })
+}
+
+pub fn d_bound(t: &Tree) -> R<v1::Bound> {
+    let p = t.as_list()?;
+    if p.len() != 2 {
+        return Err("bound: arity".into());
+    }
+    let mut b = v1::Bound::default();
+    b.lower = p[0].as_f64()?;
+    b.upper = p[1].as_f64()?;
+    Ok(b)
+}
+pub fn e_bound(b: &v1::Bound) -> Tree {
+    L(vec![f(b.lower), f(b.upper)])
+}
+
+pub fn d_dv(t: &Tree) -> R<v1::DecisionVariable> {
+    let x = t.as_list()?;
+    if x.len() != 8 {
+        return Err("decision variable: arity".into());
+    }
+    let mut v = v1::DecisionVariable::default();
+    v.id = x[0].as_u64()?;
+    v.kind = x[1].as_i64()? as i32;
+    v.bound = match x[2].as_opt()? {
+        None => None,
+        Some(b) => Some(d_bound(b)?),
+    };
+    v.substituted_value = match x[3].as_opt()? {
+        None => None,
+        Some(s) => Some(s.as_f64()?),
+    };
+    v.name = d_optstr(&x[4])?;
+    v.subscripts = d_i64s(&x[5])?;
+    v.parameters = d_strmap(&x[6])?;
+    v.description = d_optstr(&x[7])?;
+    Ok(v)
+}
+pub fn e_dv(v: &v1::DecisionVariable) -> Tree {
+    L(vec![
+        u(v.id),
+        i(v.kind as i64),
+        opt(v.bound.as_ref(), e_bound),
+        opt(v.substituted_value, f),
+        e_optstr(&v.name),
+        list(v.subscripts.iter(), |s| i(*s)),
+        e_strmap(&v.parameters),
+        e_optstr(&v.description),
+    ])
+}
+
+pub fn d_constraint(t: &Tree) -> R<v1::Constraint> {
+    let x = t.as_list()?;
+    if x.len() != 7 {
+        return Err("constraint: arity".into());
+    }
+    let mut c = v1::Constraint::default();
+    c.id = x[0].as_u64()?;
+    c.equality = x[1].as_i64()? as i32;
+    c.function = d_optfn(&x[2])?;
+    c.name = d_optstr(&x[3])?;
+    c.subscripts = d_i64s(&x[4])?;
+    c.parameters = d_strmap(&x[5])?;
+    c.description = d_optstr(&x[6])?;
+    Ok(c)
+}
+pub fn e_constraint(c: &v1::Constraint) -> Tree {
+    L(vec![
+        u(c.id),
+        i(c.equality as i64),
+        opt(c.function.as_ref(), e_function),
+        e_optstr(&c.name),
+        list(c.subscripts.iter(), |s| i(*s)),
+        e_strmap(&c.parameters),
+        e_optstr(&c.description),
+    ])
+}
+
+pub fn d_removed(t: &Tree) -> R<v1::RemovedConstraint> {
+    let x = t.as_list()?;
+    if x.len() != 3 {
+        return Err("removed constraint: arity".into());
+    }
+    let mut r = v1::RemovedConstraint::default();
+    r.constraint = match x[0].as_opt()? {
+        None => None,
+        Some(c) => Some(d_constraint(c)?),
+    };
+    r.removed_reason = x[1].as_str()?.to_string();
+    r.removed_reason_parameters = d_strmap(&x[2])?;
+    Ok(r)
+}
+pub fn e_removed(r: &v1::RemovedConstraint) -> Tree {
+    L(vec![
+        opt(r.constraint.as_ref(), e_constraint),
+        a(&r.removed_reason),
+        e_strmap(&r.removed_reason_parameters),
+    ])
+}
+
+fn d_deps(t: &Tree) -> R<HashMap<u64, v1::Function>> {
+    let mut m = HashMap::new();
+    for e in t.as_list()? {
+        let p = e.as_list()?;
+        if p.len() != 2 {
+            return Err("dependency: arity".into());
+        }
+        m.insert(p[0].as_u64()?, d_function(&p[1])?);
+    }
+    Ok(m)
+}
+fn e_deps(m: &HashMap<u64, v1::Function>) -> Tree {
+    let mut v: Vec<_> = m.iter().collect();
+    v.sort_by_key(|(k, _)| **k);
+    list(v, |(k, x)| L(vec![u(*k), e_function(x)]))
+}
+
+fn d_hints(t: &Tree) -> R<v1::ConstraintHints> {
+    let x = t.as_list()?;
+    if x.len() != 2 {
+        return Err("hints: arity".into());
+    }
+    let mut h = v1::ConstraintHints::default();
+    for o in x[0].as_list()? {
+        let p = o.as_list()?;
+        let mut oh = v1::OneHot::default();
+        oh.constraint_id = p[0].as_u64()?;
+        oh.decision_variables = d_u64s(&p[1])?;
+        h.one_hot_constraints.push(oh);
+    }
+    for o in x[1].as_list()? {
+        let p = o.as_list()?;
+        let mut s = v1::Sos1::default();
+        s.binary_constraint_id = p[0].as_u64()?;
+        s.big_m_constraint_ids = d_u64s(&p[1])?;
+        s.decision_variables = d_u64s(&p[2])?;
+        h.sos1_constraints.push(s);
+    }
+    Ok(h)
+}
+fn e_hints(h: &v1::ConstraintHints) -> Tree {
+    L(vec![
+        list(h.one_hot_constraints.iter(), |o| {
+            L(vec![u(o.constraint_id), e_ids(o.decision_variables.iter())])
+        }),
+        list(h.sos1_constraints.iter(), |s| {
+            L(vec![
+                u(s.binary_constraint_id),
+                e_ids(s.big_m_constraint_ids.iter()),
+                e_ids(s.decision_variables.iter()),
+            ])
+        }),
+    ])
+}
+
+fn d_description(t: &Tree) -> R<v1::instance::Description> {
+    let x = t.as_list()?;
+    if x.len() != 4 {
+        return Err("description: arity".into());
+    }
+    let mut d = v1::instance::Description::default();
+    d.name = d_optstr(&x[0])?;
+    d.description = d_optstr(&x[1])?;
+    d.authors = x[2].as_list()?.iter().map(|s| Ok(s.as_str()?.to_string())).collect::<R<_>>()?;
+    d.created_by = d_optstr(&x[3])?;
+    Ok(d)
+}
+fn e_description(d: &v1::instance::Description) -> Tree {
+    L(vec![
+        e_optstr(&d.name),
+        e_optstr(&d.description),
+        list(d.authors.iter(), |s| a(s)),
+        e_optstr(&d.created_by),
+    ])
+}
+
+pub fn d_instance(t: &Tree) -> R<v1::Instance> {
+    let x = t.as_list()?;
+    if x.len() != 9 {
+        return Err(format!("instance: arity {}", x.len()));
+    }
+    let mut ins = v1::Instance::default();
+    ins.sense = x[0].as_i64()? as i32;
+    ins.objective = d_optfn(&x[1])?;
+    ins.decision_variables = x[2].as_list()?.iter().map(d_dv).collect::<R<_>>()?;
+    ins.constraints = x[3].as_list()?.iter().map(d_constraint).collect::<R<_>>()?;
+    ins.removed_constraints = x[4].as_list()?.iter().map(d_removed).collect::<R<_>>()?;
+    ins.decision_variable_dependency = d_deps(&x[5])?;
+    ins.parameters = match x[6].as_opt()? {
+        None => None,
+        Some(p) => {
+            let mut ps = v1::Parameters::default();
+            ps.entries = d_entries(p)?;
+            Some(ps)
+        }
+    };
+    ins.constraint_hints = match x[7].as_opt()? {
+        None => None,
+        Some(h) => Some(d_hints(h)?),
+    };
+    ins.description = match x[8].as_opt()? {
+        None => None,
+        Some(d) => Some(d_description(d)?),
+    };
+    Ok(ins)
+}
+pub fn e_instance(ins: &v1::Instance) -> Tree {
+    L(vec![
+        i(ins.sense as i64),
+        opt(ins.objective.as_ref(), e_function),
+        list(ins.decision_variables.iter(), e_dv),
+        list(ins.constraints.iter(), e_constraint),
+        list(ins.removed_constraints.iter(), e_removed),
+        e_deps(&ins.decision_variable_dependency),
+        opt(ins.parameters.as_ref(), |p| e_entries(&p.entries)),
+        opt(ins.constraint_hints.as_ref(), e_hints),
+        opt(ins.description.as_ref(), e_description),
+    ])
+}
+
+pub fn d_parameter(t: &Tree) -> R<v1::Parameter> {
+    let x = t.as_list()?;
+    if x.len() != 5 {
+        return Err("parameter: arity".into());
+    }
+    let mut p = v1::Parameter::default();
+    p.id = x[0].as_u64()?;
+    p.name = d_optstr(&x[1])?;
+    p.subscripts = d_i64s(&x[2])?;
+    p.parameters = d_strmap(&x[3])?;
+    p.description = d_optstr(&x[4])?;
+    Ok(p)
+}
+pub fn e_parameter(p: &v1::Parameter) -> Tree {
+    L(vec![
+        u(p.id),
+        e_optstr(&p.name),
+        list(p.subscripts.iter(), |s| i(*s)),
+        e_strmap(&p.parameters),
+        e_optstr(&p.description),
+    ])
+}
+
+pub fn d_parametric(t: &Tree) -> R<v1::ParametricInstance> {
+    let x = t.as_list()?;
+    if x.len() != 9 {
+        return Err("parametric instance: arity".into());
+    }
+    let mut ins = v1::ParametricInstance::default();
+    ins.sense = x[0].as_i64()? as i32;
+    ins.objective = d_optfn(&x[1])?;
+    ins.decision_variables = x[2].as_list()?.iter().map(d_dv).collect::<R<_>>()?;
+    ins.parameters = x[3].as_list()?.iter().map(d_parameter).collect::<R<_>>()?;
+    ins.constraints = x[4].as_list()?.iter().map(d_constraint).collect::<R<_>>()?;
+    ins.removed_constraints = x[5].as_list()?.iter().map(d_removed).collect::<R<_>>()?;
+    ins.decision_variable_dependency = d_deps(&x[6])?;
+    ins.constraint_hints = match x[7].as_opt()? {
+        None => None,
+        Some(h) => Some(d_hints(h)?),
+    };
+    ins.description = match x[8].as_opt()? {
+        None => None,
+        Some(d) => Some(d_description(d)?),
+    };
+    Ok(ins)
+}
+pub fn e_parametric(ins: &v1::ParametricInstance) -> Tree {
+    L(vec![
+        i(ins.sense as i64),
+        opt(ins.objective.as_ref(), e_function),
+        list(ins.decision_variables.iter(), e_dv),
+        list(ins.parameters.iter(), e_parameter),
+        list(ins.constraints.iter(), e_constraint),
+        list(ins.removed_constraints.iter(), e_removed),
+        e_deps(&ins.decision_variable_dependency),
+        opt(ins.constraint_hints.as_ref(), e_hints),
+        opt(ins.description.as_ref(), e_description),
+    ])
+}
+
+pub fn e_evaluated_constraint(c: &v1::EvaluatedConstraint) -> Tree {
+    // [id, equality, value, [used ids], opt name, [subscripts], params, opt description,
+    //  opt dual, opt removed_reason, removed_reason_parameters]
+    L(vec![
+        u(c.id),
+        i(c.equality as i64),
+        f(c.evaluated_value),
+        e_ids(c.used_decision_variable_ids.iter()),
+        e_optstr(&c.name),
+        list(c.subscripts.iter(), |s| i(*s)),
+        e_strmap(&c.parameters),
+        e_optstr(&c.description),
+        opt(c.dual_variable, f),
+        e_optstr(&c.removed_reason),
+        e_strmap(&c.removed_reason_parameters),
+    ])
+}
+
+pub fn e_solution(s: &v1::Solution) -> Tree {
+    // [opt state, objective, [dv..], [evaluated constraint..], feasible, opt feasible_relaxed,
+    //  feasible_unrelaxed (deprecated), optimality, relaxation]
+    #[allow(deprecated)]
+    let fu = s.feasible_unrelaxed;
+    L(vec![
+        opt(s.state.as_ref(), e_state),
+        f(s.objective),
+        list(s.decision_variables.iter(), e_dv),
+        list(s.evaluated_constraints.iter(), e_evaluated_constraint),
+        b(s.feasible),
+        opt(s.feasible_relaxed, b),
+        b(fu),
+        i(s.optimality as i64),
+        i(s.relaxation as i64),
+    ])
+}
